@@ -339,8 +339,11 @@ def c07_c(ctx: Ctx):
                                            for c in ast.walk(val)):
             stripped_names.add(tgt)
     n_pre = 0
+    in_nested = {id(x) for st in ast.walk(gb.node) if isinstance(st, (ast.FunctionDef, ast.AsyncFunctionDef, ast.Lambda)) and st is not gb.node for x in ast.walk(st)}
     for d in body_nodes(gb):
         srcs = []
+        if id(d) in in_nested:
+            continue        # a helper's own parameter: judged where the helper is expanded / called
         if isinstance(d, ast.DictComp) and "$exists" in canon(d.value):
             srcs = [d.generators[0].iter]
             if not (isinstance(d.key, ast.Name) and isinstance(d.generators[0].target, ast.Name) and d.key.id == d.generators[0].target.id):
